@@ -333,7 +333,9 @@ static void case_c07(const Spec& spec, int alg, int variant) {
 static void case_c08(const Spec& spec, int alg, const std::vector<std::string>& statuses) {
   std::vector<Res> rs; std::vector<Spec> specs;
   for (auto& st : statuses) {
-    Spec s = spec; for (size_t i = 0; i < s.pts.size(); i++) { std::string& adj = s.pts[i].adj; std::string low; for (char ch : adj) low += (char)tolower(ch); std::string up; for (char ch : adj) up += (char)toupper(ch); adj = st[i] == 'c' ? up : low; }
+    Spec s = spec; for (size_t i = 0; i < s.pts.size(); i++) { std::string& adj = s.pts[i].adj; std::string low; for (char ch : adj) low += (char)tolower(ch); std::string up; for (char ch : adj) up += (char)toupper(ch); adj = st[i] == 'c' ? up : low;
+      // mixed status of one point: 'z' = height constrained, position free ("xyZ"); 'p' = position constrained, height free ("XYz")
+      if (st[i] == 'z' || st[i] == 'p') { std::string m; for (char ch : low) m += ((ch == 'z') == (st[i] == 'z')) ? (char)toupper(ch) : ch; adj = m; } }
     Built b; if (!build(b, s, ALGS[alg], Q(1, 10))) return;
     make_oracle(b);
     if (!b.orc.resolves) { sx::note("skip", "constraint set does not resolve the defect: " + st); return; }
@@ -828,7 +830,7 @@ static void gen_cases(const sx::Options& opt, std::vector<sx::Case>& cases) {
       { auto sp = std::make_shared<Spec>(levelling("lev5-free/cov" + std::to_string(cs), 5, loop5, "ccccc", rng, cs));
         add("net-c08/" + sp->name + "/" + ALGS[alg], "datum choice", [sp, alg] { case_c08(*sp, alg, {"ccccc", "caaaa", "aacac", "acccc", "aaaac"}); }); }
       if (cs < 2) { auto sp = std::make_shared<Spec>(vectors("vec4-free/cov" + std::to_string(cs), 4, {{1,2},{2,3},{3,4},{4,1},{2,4}}, "cccc", rng, cs));
-        add("net-c08/" + sp->name + "/" + ALGS[alg], "datum choice", [sp, alg] { case_c08(*sp, alg, {"cccc", "caaa", "acca", "aaac"}); }); }
+        add("net-c08/" + sp->name + "/" + ALGS[alg], "datum choice", [sp, alg] { case_c08(*sp, alg, {"cccc", "caaa", "acca", "aaac", "zpaa", "apza"}); }); }
     }
   }
   if (on("C10")) {
@@ -850,7 +852,7 @@ static void gen_cases(const sx::Options& opt, std::vector<sx::Case>& cases) {
   if (on("C05")) { const char* AX[] = {"ne", "sw", "es", "wn", "en", "nw", "se", "ws"}; const char* AN[] = {"left-handed", "right-handed"}; int k = 0;
     for (auto ax : AX) for (auto an : AN) for (int variant = 0; variant < (th ? 3 : 1); variant++) { std::string a = ax, g = an; int alg = (k++) % 3;
       add("net-c05/" + a + "/" + g + "/v" + std::to_string(variant) + "/" + ALGS[alg], "frames", [a, g, variant, alg] { case_c05_net(a, g, variant, alg); }); } }
-  if (on("C04")) { int k = 0; for (auto& s : fam) { if (s.name != "lev5-fixed1/cov2" && s.name != "lev5-free-c2/cov1" && s.name != "vec4-fixed1/cov1") continue; int alg0 = (k++) % 3;
+  if (on("C04")) { int k = 0; for (auto& s : fam) { if (s.name != "lev5-fixed1/cov2" && s.name != "lev5-free-c2/cov1" && s.name != "vec4-fixed1/cov1" && s.name != "vec4-free/cov0") continue; int alg0 = (k++) % 3;      // (vec4-free: both ends of the first vector are new points, so the index of y does not follow the index of x)
       for (int first = 0; first < 22; first++) { auto sp = std::make_shared<Spec>(s); int ml = (th || first == 14) ? 3 : 2;      // (histories that start with refine_approx_coordinates are taken one call longer)
         add("net-c04/" + s.name + "/" + ALGS[alg0] + "/first" + std::to_string(first), "LocalNetwork histories", [sp, alg0, first, ml] { case_c04_net(*sp, alg0, first, ml, false); });
         add("net-c04/" + s.name + "/" + ALGS[alg0] + "/adjusted-first" + std::to_string(first), "LocalNetwork histories", [sp, alg0, first, ml] { case_c04_net(*sp, alg0, first, ml, true); }); } } }
